@@ -38,6 +38,16 @@ func setBigval(st *State, ref, v *Term) {
 	st.heapSet("bigval", Store(st.heapGet("bigval", SArr(SInt, SInt)), ref, v))
 }
 
+// timeNano: the instant of a time.Time value as an uninterpreted function of its wall and ext fields (bounded to int64).
+func timeNano(v *Val) *Term {
+	if v.K != KStruct || len(v.Fs) < 2 {
+		unsup("time.Time value expected")
+	}
+	r := App("time.nano", SInt, v.Fs[0].X, v.Fs[1].X)
+	globalFacts = append(globalFacts, And(Le(Neg(Pow2(63)), r), Lt(r, Pow2(63))))
+	return r
+}
+
 func absT(x *Term) *Term {
 	if x.IsConst() {
 		return NumB(new(big.Int).Abs(x.Val))
@@ -325,18 +335,34 @@ func init() {
 		"(github.com/inconshreveable/log15.Logger).Info", "(github.com/inconshreveable/log15.Logger).Debug", "(github.com/inconshreveable/log15.Logger).Warn",
 		"(github.com/inconshreveable/log15.Logger).Error", "(github.com/inconshreveable/log15.Logger).Crit", "(github.com/inconshreveable/log15.Logger).New",
 		"(common.Logger).Info", "(common.Logger).Debug", "(common.Logger).Warn", "(common.Logger).Error", "(common.Logger).Crit", "(common.Logger).New",
-		"fmt.Sprintf", "fmt.Sprint", "fmt.Println", "fmt.Printf", "fmt.Sprintln", "time.Now", "time.Since", "(time.Time).Unix", "(time.Time).Sub", "(time.Time).After", "(time.Time).Before", "(time.Time).Add", "(time.Time).Equal", "time.Unix",
+		"fmt.Sprintf", "fmt.Sprint", "fmt.Println", "fmt.Printf", "fmt.Sprintln", "time.Now", "time.Since", "(time.Time).Sub", "(time.Time).Add", "time.Unix",
 		"(github.com/inconshreveable/log15.Logger).Trace", "(time.Duration).Seconds",
 		"(*sync.WaitGroup).Add", "(*sync.WaitGroup).Done", "(*sync.WaitGroup).Wait", "runtime/debug.Stack", "strings.ToLower", "strings.ToUpper",
 		"encoding/hex.EncodeToString", "strconv.Itoa", "strconv.FormatUint", "strconv.FormatInt"} {
 		reg(n, nil, nop)
 	}
+	// time.Time: an instant is identified by an uninterpreted nanosecond count of its (wall, ext) fields
+	reg("(time.Time).UnixNano", nil, func(fr *Frame, st *State, a []*Val, cc *ssa.CallCommon, pos token.Pos) (*Val, *State) {
+		return intVal(res0(cc), wrap(timeNano(a[0]), res0(cc))), st
+	})
+	reg("(time.Time).Unix", nil, func(fr *Frame, st *State, a []*Val, cc *ssa.CallCommon, pos token.Pos) (*Val, *State) {
+		return intVal(res0(cc), Div(timeNano(a[0]), Num(1000000000))), st
+	})
+	reg("(time.Time).After", nil, func(fr *Frame, st *State, a []*Val, cc *ssa.CallCommon, pos token.Pos) (*Val, *State) {
+		return boolVal(Gt(timeNano(a[0]), timeNano(a[1]))), st
+	})
+	reg("(time.Time).Before", nil, func(fr *Frame, st *State, a []*Val, cc *ssa.CallCommon, pos token.Pos) (*Val, *State) {
+		return boolVal(Lt(timeNano(a[0]), timeNano(a[1]))), st
+	})
+	reg("(time.Time).Equal", nil, func(fr *Frame, st *State, a []*Val, cc *ssa.CallCommon, pos token.Pos) (*Val, *State) {
+		return boolVal(Eq(timeNano(a[0]), timeNano(a[1]))), st
+	})
 	reg("bytes.Equal", nil, func(fr *Frame, st *State, a []*Val, cc *ssa.CallCommon, pos token.Pos) (*Val, *State) {
 		arr := st.heapGet("S:byte", SArr(SInt, SArr(SInt, SInt)))
 		x, y := a[0], a[1]
 		r := Fresh("bytes.Equal", SBool)
 		q := BoundVar("j", SInt)
-		same := Forall([]*Term{q}, Implies(And(Le(Num(0), q), Lt(q, x.Len)), Eq(Select(Select(arr, x.X), Add(x.Off, q)), Select(Select(arr, y.X), Add(y.Off, q)))))
+		same := Forall([]*Term{q}, Implies(And(Le(Num(0), q), Lt(q, x.Len)), Eq(Select(Select(arr, x.X), SliceIdx(x.Off, q)), Select(Select(arr, y.X), SliceIdx(y.Off, q)))))
 		fr.C.addFact(Eq(r, And(Eq(x.Len, y.Len), same)))
 		return boolVal(r), st
 	})
@@ -442,6 +468,13 @@ func (c *Ctx) constGlobalValue(g *ssa.Global, name string, t types.Type) *Val {
 	if v := c.constCompositeGlobal(g, name, t); v != nil {
 		return v
 	}
+	// a pointer initialised by a module constructor whose every return is a fresh allocation: non-nil and distinct from the
+	// other such globals (contents unknown)
+	if call, ok := init.(*ssa.Call); ok && kindOf(t) == KPtr {
+		if callee := call.Call.StaticCallee(); callee != nil && callee.Blocks != nil && returnsFreshAlloc(callee) {
+			return mkPtr(t, negID())
+		}
+	}
 	// unknown initialiser: a stable symbolic constant
 	var facts []*Term
 	v := freshValNamed(t, "gval!"+name, &facts)
@@ -455,6 +488,48 @@ func (c *Ctx) constGlobalValue(g *ssa.Global, name string, t types.Type) *Val {
 		}
 	}
 	return v
+}
+
+func returnsFreshAlloc(fn *ssa.Function) bool {
+	n := 0
+	for _, b := range fn.Blocks {
+		for _, ins := range b.Instrs {
+			if r, ok := ins.(*ssa.Return); ok {
+				n++
+				if len(r.Results) != 1 {
+					return false
+				}
+				v := r.Results[0]
+				// naive form: the result is loaded from the result cell; accept a direct heap Alloc or a load of a cell that
+				// is only ever stored heap Allocs
+				if a, ok := v.(*ssa.Alloc); ok && a.Heap {
+					continue
+				}
+				if u, ok := v.(*ssa.UnOp); ok {
+					if cell, ok := u.X.(*ssa.Alloc); ok && !cell.Heap && onlyStoresAllocs(fn, cell) {
+						continue
+					}
+				}
+				return false
+			}
+		}
+	}
+	return n > 0
+}
+
+func onlyStoresAllocs(fn *ssa.Function, cell *ssa.Alloc) bool {
+	n := 0
+	for _, b := range fn.Blocks {
+		for _, ins := range b.Instrs {
+			if st, ok := ins.(*ssa.Store); ok && st.Addr == cell {
+				n++
+				if a, ok := st.Val.(*ssa.Alloc); !ok || !a.Heap {
+					return false
+				}
+			}
+		}
+	}
+	return n > 0
 }
 
 func isErrorType(t types.Type) bool {
@@ -474,11 +549,10 @@ func freshValNamed(t types.Type, name string, facts *[]*Term) *Val {
 		return v
 	case KSlice:
 		v := &Val{K: KSlice, T: t, X: Sym(name+"#arr", SInt), Off: Sym(name+"#off", SInt), Len: Sym(name+"#len", SInt), Cap: Sym(name+"#cap", SInt)}
-		*facts = append(*facts, Le(Num(0), v.Off), Le(Num(0), v.Len), Le(v.Len, v.Cap), Le(Num(0), v.X))
+		*facts = append(*facts, Le(Num(0), v.Off), Le(Num(0), v.Len), Le(v.Len, v.Cap))
 		return v
 	case KPtr:
 		x := Sym(name, SInt)
-		*facts = append(*facts, Le(Num(0), x))
 		return mkPtr(t, x)
 	case KInt:
 		x := Sym(name, SInt)
